@@ -6,3 +6,6 @@ import TradingVerif.Props.C13
 #print axioms TV.rebalance_missing_quote_errors
 #print axioms TV.rebalance_fails_before_trading
 #print axioms TV.trade_needs_both_sides
+#print axioms TV.valueOf_ok_iff
+#print axioms TV.valuesOn_ok_iff
+#print axioms TV.valuesOf_ok_iff
